@@ -161,7 +161,7 @@ class ComposedNode(ConfigNode):
         def replace_node(self, new_node, *path):
             raise NotImplementedError()
 
-        def filter_nodes(self, condition, prefix=None, removed=None, holes=False):
+        def filter_nodes(self, condition, prefix=None, removed=None, holes=None):
             prefix = NodePath.get_list_path(prefix, check_types=False) or NodePath()
             to_del = []
             to_re_set = []
@@ -191,7 +191,10 @@ class ComposedNode(ConfigNode):
 
             # (when a merge prunes a list of which some elements stay, the others leave a hole behind: the ones that stay keep their
             # positions for the element-wise merge that follows, what is still a hole afterwards is dropped - see _drop_holes)
-            leave_holes = holes and isinstance(self, list) and 0 < len(to_del) and (holes == 'always' or len(to_del) < self.ayns.children_count())
+            # Only where the list is going to be merged with another list ("holes" says so for the path): a mapping or a function node
+            # would take the holes for entries.
+            leave_holes = holes(prefix) if holes and to_del and isinstance(self, list) else None
+            leave_holes = leave_holes == 'always' or (leave_holes == 'partial' and len(to_del) < self.ayns.children_count())
             for name in reversed(to_del):
                 if leave_holes:
                     self.ayns.set_child(name, ComposedNode._make_hole(self))
@@ -311,7 +314,10 @@ class ComposedNode(ConfigNode):
                     other_node = other.ayns.get_first_not_missing_node(child_path[len(path):])
                     return node.ayns.has_priority_over(other_node)
 
-                self.ayns.filter_nodes(maybe_keep, prefix=path, removed=removed, holes=True)
+                def holes(list_path):
+                    return 'partial' if isinstance(other.ayns.get_node(list_path[len(path):], incomplete=None), list) else None
+
+                self.ayns.filter_nodes(maybe_keep, prefix=path, removed=removed, holes=holes)
                 pruned = True
                 if not self._children and other.ayns.has_priority_over(self, if_equal=True):
                     removed.add(path)
@@ -381,6 +387,7 @@ class ComposedNode(ConfigNode):
         hole = ConfigNode(None)
         hole._priority = ConfigNode.WEAK - 1 # (below anything a document can say: whatever meets it takes its place)
         hole._default_safe = parent._default_safe
+        hole._allow_new = True # (not an entry a !notnew document writes)
         hole._is_hole = True
         return hole
 
